@@ -2,6 +2,7 @@ package vc
 
 import (
 	"fmt"
+	"math/big"
 	"os"
 	"strconv"
 	"strings"
@@ -470,11 +471,11 @@ func lexSpec(s string) ([]tok, error) {
 				j++
 			}
 			txt := strings.ReplaceAll(s[i:j], "_", "")
-			v, err := strconv.ParseUint(txt, 0, 64)
-			if err != nil {
+			v, ok := new(big.Int).SetString(txt, 0)
+			if !ok {
 				return nil, fmt.Errorf("bad integer %q", s[i:j])
 			}
-			out = append(out, tok{"int", strconv.FormatUint(v, 10)})
+			out = append(out, tok{"int", v.String()})
 			i = j
 		case c == '\'':
 			j := i + 1
